@@ -67,6 +67,9 @@ class Ctx:
             outs = px.run(name, args=args, setup=setup)
         except P.PathBudgetExceeded as e:
             raise FailClosed(str(e))
+        pruned = sum(1 for o in outs if o.kind in ("infeasible", "unreachable"))
+        outs = [o for o in outs if o.kind not in ("infeasible", "unreachable")]
+        self.analysed["pruned_paths"] = self.analysed.get("pruned_paths", 0) + pruned
         self.analysed["px_runs"] += 1
         self.analysed["paths"] += len(outs)
         self.analysed["steps"] += px.steps
